@@ -150,6 +150,8 @@ def worker(cfg):
         model.drop.__dict__["training"] = bool(child_tr)
         if n_args:
             args[-1].dtype = "int64"
+        if n_args >= 2:
+            args[0].dtype = "float64"            # wider than the model's parameters: must reach the model unrounded
         arg_dtypes = [str(a.dtype) for a in args]
 
         def rp(m):
